@@ -49,6 +49,11 @@ def catalogue(rng=None, widths=(1, 2, 3), groups=('arith', 'logic', 'fxp'), big=
                     if wr >= wa:
                         add('arith', 'AddCarryIn', [wa, wb, 1], [wr], lambda hw, i, o: P.AddCarryIn(hw, 'dut', i[0], i[1], o[0], i[2]))
                     add('arith', 'Sub', [wa, wb], [wr], lambda hw, i, o: P.Sub(hw, 'dut', i[0], i[1], o[0]))
+                    if wa == wb:
+                        add('arith', 'Add', [wa], [wr], lambda hw, i, o: P.Add(hw, 'dut', i[0], i[0], o[0]), {'ci': 0, 'co': 0, 'alias': [1, 1]},
+                            ' alias a+a')
+                        add('arith', 'Sub', [wa], [wr], lambda hw, i, o: P.Sub(hw, 'dut', i[0], i[0], o[0]), {'alias': [1, 1]}, ' alias a-a')
+                        add('arith', 'Mul', [wa], [wr], lambda hw, i, o: P.Mul(hw, 'dut', i[0], i[0], o[0]), {'alias': [1, 1]}, ' alias a*a')
                     if wr >= wa:
                         add('arith', 'SubBorrowIn', [wa, wb, 1], [wr], lambda hw, i, o: P.SubBorrowIn(hw, 'dut', i[0], i[1], o[0], i[2]))
                     add('arith', 'Mul', [wa, wb], [wr], lambda hw, i, o: P.Mul(hw, 'dut', i[0], i[1], o[0]))
@@ -141,6 +146,21 @@ def catalogue(rng=None, widths=(1, 2, 3), groups=('arith', 'logic', 'fxp'), big=
                 if w + w2 + 1 <= 30:
                     add('logic', 'ConcatenateMSBF', [w, 1, w2], [w + w2 + 1], lambda hw, i, o: P.ConcatenateMSBF(hw, 'dut', list(i), o[0]))
                     add('logic', 'ConcatenateLSBF', [w2, w, 1], [w + w2 + 1], lambda hw, i, o: P.ConcatenateLSBF(hw, 'dut', list(i), o[0]))
+            # the same wire on several operands of one instance (c.alias = wire index per operand)
+            for w2 in W:
+                add('logic', 'ConcatenateLSBF', [w, w2], [2 * w + w2], lambda hw, i, o: P.ConcatenateLSBF(hw, 'dut', [i[0], i[1], i[0]], o[0]),
+                    {'alias': [1, 2, 1]}, ' alias 1,2,1')
+                add('logic', 'ConcatenateMSBF', [w, w2], [2 * w + w2], lambda hw, i, o: P.ConcatenateMSBF(hw, 'dut', [i[0], i[1], i[0]], o[0]),
+                    {'alias': [1, 2, 1]}, ' alias 1,2,1')
+            add('logic', 'ConcatenateLSBF', [w], [3 * w], lambda hw, i, o: P.ConcatenateLSBF(hw, 'dut', [i[0], i[0], i[0]], o[0]),
+                {'alias': [1, 1, 1]}, ' alias 1,1,1')
+            for k in ('And', 'Or', 'Xor'):
+                add('logic', k, [w, w], [w], lambda hw, i, o, k=k: getattr(P, k)(hw, 'dut', [i[0], i[1], i[0]], o[0]), {'alias': [1, 2, 1]},
+                    ' n=3 alias 1,2,1')
+            add('logic', 'Mux', [1, w, w], [w], lambda hw, i, o: P.Mux(hw, 'dut', i[0], [i[1], i[2]], o[0]), tag=' 2-way')
+            add('logic', 'Equal', [w], [1], lambda hw, i, o: P.Equal(hw, 'dut', i[0], i[0], o[0]), {'alias': [1, 1]}, ' alias')
+            add('logic', 'Comparator', [w], [1, 1, 1], lambda hw, i, o: P.Comparator(hw, 'dut', i[0], i[0], o[0], o[1], o[2]),
+                {'alias': [1, 1]}, ' alias')
             add('logic', 'BitsLSBF', [w], [1] * w, lambda hw, i, o: P.BitsLSBF(hw, 'dut', i[0], list(o)))
             add('logic', 'BitsMSBF', [w], [1] * w, lambda hw, i, o: P.BitsMSBF(hw, 'dut', i[0], list(o)))
             add('logic', 'Repeat', [1], [w], lambda hw, i, o: P.Repeat(hw, 'dut', i[0], o[0]))
